@@ -866,7 +866,7 @@ def run(ctx):
         check_batch(ctx, gen_batch(ctx.rng, 900))
         return
     _WORKER_LEAN[0] = ctx.lean
-    jobs = [(ctx.rng.randrange(1 << 30), 600, 'thorough') for _ in range(32)]
+    jobs = [(ctx.rng.randrange(1 << 30), 1200, 'thorough') for _ in range(48)]
     for res in common.parallel_map(_worker, jobs):
         _merge(ctx, res)
     total = sum(1 for _ in enum_small())
